@@ -230,14 +230,20 @@ def rule_termination(ctx, mmod):
                       "the loop never terminates for such inputs" % (label, recurrent[:1]))
     # integers: exactly the non-negative powers of two
     calls = list(range(0, 130)) + [256, 512, 1024, 1000, -1, -2, -4, -8]
+    # integers beyond the 53 bits a float carries exactly, and beyond the float range
+    calls += [2 ** 53, 2 ** 54 + 2, 2 ** 54 - 2, 2 ** 60 + 4, 3 * 2 ** 60, 2 ** 64, 2 ** 100, 2 ** 100 + 2 ** 40, 2 ** 1025, 3 * 2 ** 1025, 2 ** 2000 + 2]
     bad = []
     for n in calls:
-        ps = paths_of(ctx.repo, fi, [n])
+        try:
+            ps = paths_of(ctx.repo, fi, [n], max_iter=3000)
+        except CannotDecide as e:
+            bad.append((n, "does not terminate: %s" % short(str(e), 80), None))
+            continue
         want = n > 0 and (n & (n - 1)) == 0
         if not (len(ps) == 1 and ps[0].kind == "return" and ps[0].value is want):
             bad.append((n, [(p.kind, p.value) for p in ps], want))
     ctx.check(not bad, R, "integers", fi.where(), "valid_beat_duration(n) for integers",
-              "valid beat units must be exactly 1, 2, 4, 8, ...: %s" % bad[:4])
+              "valid beat units must be exactly 1, 2, 4, 8, ...: %s" % [(("2**%d%+d" % (x[0].bit_length() - 1, x[0] - 2 ** (x[0].bit_length() - 1)) if x[0] > 10 ** 6 else x[0]),) + tuple(x[1:]) for x in bad[:4]])
     for label, x in (("2.5", 2.5), ("0.5", 0.5), ("-0.25", -0.25), ("3.0", 3.0), ("6.5", 6.5), ("inf", float("inf")), ("-inf", float("-inf")),
                      ("nan", float("nan")), ("1e300", 1e300), ("5e-324", 5e-324)):
         def mk(ch):
